@@ -74,9 +74,9 @@ class ADX(Indicator):
         adx_positive = None
         adx_negative = None
 
-        if self.reading("high"):
-            up = self.reading("high") - self.reading("high", index - 1)
-            down = self.reading("low", index - 1) - self.reading("low")
+        if self.prev_exists("high"):
+            up = self.reading("high") - self.prev_reading("high")
+            down = self.prev_reading("low") - self.reading("low")
 
             positive = up if up > down and up > 0 else 0
             negative = down if down > up and down > 0 else 0
